@@ -405,44 +405,8 @@ def _is_refusal(e):
 
 
 def check_laws(sim, st, M, where, old=None):
-    gm = st.gm
-    anc = st.anc
-    lh = st.lh
-
-    def bad(law, detail):
-        sim.fail("laws", ["laws", "none", f"{law}@{where}"], f"{law}: {detail}; tip={st.tip} lh={lh} map={sorted(M.items(), key=lambda kv: graphsim._natkey(kv[0]))}")
-
-    if set(M) != set(anc):
-        bad("total", f"map keys differ from the tip's ancestry: extra={sorted(set(M) - set(anc))} missing={sorted(set(anc) - set(M))}")
-    inv = {}
-    for r, v in M.items():
-        if v in inv:
-            bad("injective", f"{r} and {inv[v]} are both numbered {v}")
-        inv[v] = r
-    pos = {r: i + 1 for i, r in enumerate(lh)}
-    for r, v in M.items():
-        if len(v) not in (1, 3):
-            bad("shape", f"{r} numbered {v}")
-        if (len(v) == 1) != (r in pos):
-            bad("mainline", f"{r} numbered {v} but left-hand history is {lh}")
-        if len(v) == 1 and v[0] != pos[r]:
-            bad("mainline", f"{r} is left-hand revision {pos[r]} but numbered {v}")
-        if len(v) == 3:
-            x, y, z = v
-            p = gm.lh_parent(r)
-            if p is not None and p not in st.mh.revs:
-                continue  # ghost left-hand parent: not generated
-            if z > 1:
-                if p is None or M.get(p) != (x, y, z - 1):
-                    bad("line", f"{r} numbered {v} but its left-hand parent {p} is numbered {M.get(p)}")
-            else:
-                want = M[p][0] if p is not None else 0
-                if x != want:
-                    bad("base", f"{r} numbered {v} but its left-hand parent {p} is numbered {M.get(p) if p else None}")
-    if old is not None:
-        for r, v in old.items():
-            if M.get(r) != v:
-                bad("stable", f"{r} was numbered {v} before the left-hand extension and is {M.get(r)} after it")
+    for law, detail in graphsim.revno_law_problems(st.gm, st.tip, M, old):
+        sim.fail("laws", ["laws", "none", f"{law}@{where}"], f"{law}: {detail}; tip={st.tip} lh={st.lh} map={sorted(M.items(), key=lambda kv: graphsim._natkey(kv[0]))}")
 
 
 def execute(sim, plan):
